@@ -155,8 +155,10 @@ def run(ctx):
     # quick: the small configurations (np with fewer topics), no per-action coverage; thorough: all, with coverage
     # (an action that is never taken makes the run fail as vacuous)
     if thorough:
-        for cfg in ["PubSub_mc_nq.cfg", "PubSub_mc_nqa.cfg", "PubSub_mc_n2.cfg", "PubSub_mc_np.cfg", "PubSub_mc_nt.cfg", "PubSub_mc_nt2.cfg", "PubSub_mc_c1.cfg", "PubSub_mc_ct.cfg"]:
+        for cfg in ["PubSub_mc_nq.cfg", "PubSub_mc_nqa.cfg", "PubSub_mc_n2.cfg", "PubSub_mc_np.cfg", "PubSub_mc_c1.cfg", "PubSub_mc_ct.cfg"]:
             ctx.tlc_expect_ok("pubsub", "PubSubMC", cfg, coverage=True, timeout=3000)
+        for cfg in ["PubSub_mc_nt2.cfg", "PubSub_mc_nt.cfg"]:      # the large ones: same actions, no coverage pass
+            ctx.tlc_expect_ok("pubsub", "PubSubMC", cfg, timeout=5400)
     else:
         ctx.tlc_expect_ok("pubsub", "PubSubMC", "PubSub_mc_nqa.cfg", timeout=1200)   # nq with the bound AtomicCheck (thorough: also without)
         ctx.tlc_expect_ok("pubsub", "PubSubMC", "PubSub_mc_n2.cfg", coverage=True, timeout=1200)
@@ -189,7 +191,7 @@ def run(ctx):
     dirs.append(_emit(ctx, "PubSubGen", "PubSubGen_race1.cfg", "race1"))
     # the membership check of a subscribe vs removal / eviction / re-admission (6 steps hold the minimal race)
     dirs.append(_emit(ctx, "PubSubGen", "PubSubGen_evrace.cfg", "evrace",
-                      files=None if thorough else {"PubSubGen_evrace.cfg": _cfg_with(ctx, "PubSubGen_evrace.cfg", {"MaxSteps = 7": "MaxSteps = 6"})}))
+                      files=None if thorough else {"PubSubGen_evrace.cfg": _cfg_with(ctx, "PubSubGen_evrace.cfg", {"MaxSteps = 7": "MaxSteps = 6", "GenActs <- Rv_Acts": "GenActs <- Rvq_Acts"})}))
     if thorough:
         race2 = _emit(ctx, "PubSubGen", "PubSubGen_race.cfg", "race2")
         dirs.append(_sample_dir(ctx, race2, 4000, "race2-sample"))
